@@ -189,6 +189,9 @@ class Gen:
     # ---- names
     def fresh_name(self, scope, allow_shadow=True):
         rng = self.rng
+        if scope.kind == "import":
+            # top-level names of an imported file are exported into the importing scope by `*`: keep them unique
+            return self.unique_name("i")
         for _ in range(50):
             n = rng.choice(NAMES)
             if rng.random() < 0.3:
